@@ -27,6 +27,8 @@ for sid in ids:
             t = time.time()
             r = subprocess.run(["/verif/check", pid, "--tier", a.tier], env=env, capture_output=True, text=True)
             v = [l for l in r.stdout.splitlines() if l.startswith("violation:")]
+            if r.returncode == 1 and not any(l.startswith("VIOLATION property=") for l in r.stdout.splitlines()):
+                r.returncode = 2  # a crash of the check itself is a harness fault, never a detection
             prev = res.get(pid)
             res[pid] = dict(tier=a.tier, exit=r.returncode, first_violation=(v[0][:300] if v else ""), wall_s=round(time.time() - t, 1))
             if prev and prev.get("exit") != r.returncode:
